@@ -12,6 +12,7 @@ namespace Driver.Meta
 structure St where
   cfg : Cfg
   s : State
+  waiting : List Waiter := []     -- parked journal long-poll clients of the rpc handler
 
 def init : St := { cfg := { maxBudget := 1000, step := 3600, bonus := 10, globalBudget := 1000000 }, s := State.empty }
 
@@ -56,6 +57,15 @@ def showJournalEvent (e : Entity) : String :=
 def showVersioned (e : Event) : String :=
   s!"{e.id}:{e.version}:{showName e.name}:{e.typ}:{e.nsId}:{e.updatedAt}:{e.data}/{e.dataLen}:{e.mdata}"
 
+def lastVersion (dflt : Nat) (evs : List Entity) : Nat :=
+  match evs.getLast? with
+  | some e => e.version
+  | none => dflt
+
+def sortNats (l : List Nat) : List Nat := (l.toArray.qsort (· < ·)).toList
+
+def sortReplies (l : List (Nat × List Entity)) : List (Nat × List Entity) := (l.toArray.qsort (fun a b => a.1 < b.1)).toList
+
 def parseSave? (t : List String) : Option SaveReq :=
   match t with
   | [name, id, oldv, data, dlen, create, del, typ, mdt, now] =>
@@ -75,6 +85,18 @@ def step (st : St) (toks : List String) : St × List String :=
   | "save" :: rest =>
     match parseSave? rest with
     | some a => let r := save st.s a; ({ st with s := r.1 }, [showSave r.2])
+    | none => (st, ["bad-op"])
+  | "rpcsave" :: rest =>      -- RawEditEntity: SaveEntity, then broadcastJournal when it succeeded
+    match parseSave? rest with
+    | some a =>
+      let r := save st.s a
+      match r.2 with
+      | .err _ => ({ st with s := r.1 }, [showSave r.2])
+      | .ok _ _ =>
+        let b := broadcast r.1 st.waiting
+        ({ st with s := r.1, waiting := b.1 },
+         [showSave r.2] ++ (sortReplies b.2).map (fun p => s!"reply {p.1} cur={lastVersion 0 p.2} {showList (p.2.map showJournalEvent)}")
+           ++ [s!"waiting {showList (sortNats (b.1.map (·.since)))}"])
     | none => (st, ["bad-op"])
   | ["journal", since, page] =>
     match since.toNat?, page.toInt? with
@@ -120,6 +142,20 @@ def step (st : St) (toks : List String) : St × List String :=
       let r := newMappings st.s f p
       (st, [s!"m {showList (r.1.map (fun p => s!"{p.1}:{p.2}"))} max={r.2}"])
     | _, _ => (st, ["bad-op"])
+  | ["sub", c, since, limit, rie] =>
+    match c.toNat?, since.toNat?, limit.toInt?, parseBool? rie with
+    | some c, some since, some limit, some rie =>
+      let r := subscribe st.s st.waiting c since limit rie
+      ({ st with waiting := r.1 },
+       [match r.2 with
+        | some evs => s!"reply {c} cur={lastVersion since evs} {showList (evs.map showJournalEvent)}"
+        | none => s!"parked {c}"])
+    | _, _, _, _ => (st, ["bad-op"])
+  | ["broadcast"] =>
+    let r := broadcast st.s st.waiting
+    ({ st with waiting := r.1 },
+     (sortReplies r.2).map (fun p => s!"reply {p.1} cur={lastVersion 0 p.2} {showList (p.2.map showJournalEvent)}")
+       ++ [s!"waiting {showList (sortNats (r.1.map (·.since)))}"])
   | ["dump"] => (st, dump st.s)
   | ["calc", old, expense, last, now, mx, bonus, stp] =>
     match old.toInt?, expense.toInt?, last.toNat?, now.toNat?, mx.toInt?, bonus.toInt?, stp.toNat? with
